@@ -36,7 +36,9 @@ Variable spent : list txout.
 Definition parse_txout (s : bytes) : option txout :=
   match bytes_of_hex s with Some b => deserialize (c_txout pt_ok maxvec) b | None => None end.
 Definition parse_pv (k a : bytes) : option prevouts :=
-  if bytes_eqb k (L "all") then Some (PAll spent)
+  if bytes_eqb k (L "all") then
+    (if bytes_eqb a (L "-") then Some (PAll spent)
+     else match nat_of_dec a with Some n => Some (PAll (firstn n (spent ++ spent))) | None => None end)   (* a prevout list of the wrong length *)
   else if bytes_eqb k (L "one") then
     match nat_of_dec a with Some j => match nth_error spent j with Some o => Some (POne j o) | None => None end | None => None end
   else if bytes_eqb k (L "onex") then
